@@ -763,7 +763,7 @@ def handleOS (payload : String) : String :=
   | .error e => s!"bad json {e}"
   | .ok j =>
     let g (k : String) := (j.getObjValAs? Bool k).toOption.getD false
-    let o := CLI.outputStage true (g "print") { requested := true, created := g "created", written := g "written" }
+    let o := CLI.outputStage2 true (g "print") { requested := true, created := g "created", written := g "written" } (g "closed")
     s!"exit={o.exit} listing={o.listing}"
 
 /-! ## MF: main.rs as a whole — everything before the solver (`MainM.front`) -/
